@@ -79,17 +79,19 @@ IMATH_HOSTDEVICE IMATH_CONSTEXPR14 Color4<T>
 {
     if (std::numeric_limits<T>::is_integer)
     {
+        // Scale the color channels exactly as the Vec3 overload does;
+        // alpha is not converted, it is passed through unchanged.
         Color4<double> v = Color4<double> (
-            hsv.r / float (std::numeric_limits<T>::max ()),
-            hsv.g / float (std::numeric_limits<T>::max ()),
-            hsv.b / float (std::numeric_limits<T>::max ()),
-            hsv.a / float (std::numeric_limits<T>::max ()));
+            hsv.r / double (std::numeric_limits<T>::max ()),
+            hsv.g / double (std::numeric_limits<T>::max ()),
+            hsv.b / double (std::numeric_limits<T>::max ()),
+            0.0);
         Color4<double> c = hsv2rgb_d (v);
         return Color4<T> (
             (T) (c.r * std::numeric_limits<T>::max ()),
             (T) (c.g * std::numeric_limits<T>::max ()),
             (T) (c.b * std::numeric_limits<T>::max ()),
-            (T) (c.a * std::numeric_limits<T>::max ()));
+            hsv.a);
     }
     else
     {
@@ -137,17 +139,19 @@ IMATH_HOSTDEVICE IMATH_CONSTEXPR14 Color4<T>
 {
     if (std::numeric_limits<T>::is_integer)
     {
+        // Scale the color channels exactly as the Vec3 overload does;
+        // alpha is not converted, it is passed through unchanged.
         Color4<double> v = Color4<double> (
-            rgb.r / float (std::numeric_limits<T>::max ()),
-            rgb.g / float (std::numeric_limits<T>::max ()),
-            rgb.b / float (std::numeric_limits<T>::max ()),
-            rgb.a / float (std::numeric_limits<T>::max ()));
+            rgb.r / double (std::numeric_limits<T>::max ()),
+            rgb.g / double (std::numeric_limits<T>::max ()),
+            rgb.b / double (std::numeric_limits<T>::max ()),
+            0.0);
         Color4<double> c = rgb2hsv_d (v);
         return Color4<T> (
             (T) (c.r * std::numeric_limits<T>::max ()),
             (T) (c.g * std::numeric_limits<T>::max ()),
             (T) (c.b * std::numeric_limits<T>::max ()),
-            (T) (c.a * std::numeric_limits<T>::max ()));
+            rgb.a);
     }
     else
     {
